@@ -16,7 +16,7 @@ from genlm.grammar.cfg import CFG
 from genlm.grammar.cfglm import EOS, add_EOS, locally_normalize, BoolCFGLM
 
 SR = {"Bool": us.Boolean, "Sat2": us.Sat2, "Sat3": us.Sat3, "Rat": us.Float, "RatU": us.Rat,
-      "MaxTimes": us.MaxTimes, "Real": us.Real}
+      "MaxTimes": us.MaxTimes, "Real": us.Real, "BM2": us.BM2}
 EOS_NAME = tname(EOS)
 
 
@@ -54,6 +54,8 @@ def dec_w(R, w):
         return us.Boolean(bool(w))
     if R in (us.Sat2, us.Sat3):
         return R(w)
+    if R is us.BM2:
+        return us.BM2(w)
     q = Fraction(w[0], w[1])
     if R is us.Float:
         return q
@@ -75,7 +77,7 @@ def nt_name(style, k):
     raise ValueError(style)
 
 
-def build(G, srname, names="str"):
+def build(G, srname, names="str", pre=None, late=0):
     """Rebuild a CFG from its projection."""
     R = SR[srname]
     V = {unt(x) for x in G["V"]}
@@ -88,8 +90,51 @@ def build(G, srname, names="str"):
         return nt_name(names, int(y[1:]))
 
     g = CFG(R=R, S=sym(G["S"]), V=V)
-    for r in G["rules"]:
+    for r in G["rules"][: len(G["rules"]) - late]:
         g.add(dec_w(R, r["w"]), sym(r["h"]), *[sym(y) for y in r["b"]])
+    if late:
+        # the last `late` rules are added AFTER total weights were computed once on the object: later totals
+        # must be those of the whole grammar (nothing computed earlier may be silently reused)
+        g.agenda()
+        g.treesum()
+        for r in G["rules"][len(G["rules"]) - late:]:
+            g.add(dec_w(R, r["w"]), sym(r["h"]), *[sym(y) for y in r["b"]])
+    return warm_cfg(g, pre)
+
+
+CFG_PRE = ("agenda", "treesum", "naive", "trim", "cotrim", "cnf", "prefix_grammar", "rhs", "call", "nullaryremove",
+           "unaryremove", "unarycycleremove", "derivative", "materialize", "renumber", "binarize", "agenda_maxiter")
+
+
+def safe_pre(srn, shape):
+    """Preludes that terminate: total-weight evaluations only where the total weight is finite."""
+    if srn in ("Sat3", "Sat2", "Bool") or shape == "acyclic":
+        return CFG_PRE
+    return tuple(x for x in CFG_PRE if x not in ("agenda", "treesum", "naive", "agenda_maxiter"))
+
+
+def warm_cfg(g, pre):
+    """Earlier queries / transformations on the SAME grammar object (it caches trim, rhs, cnf, prefix_grammar):
+    they must not change any later answer (C05) - and every answer is still judged by the oracle."""
+    for name in pre or ():
+        if name == "agenda":
+            g.agenda()
+        elif name == "agenda_maxiter":
+            g.agenda(maxiter=2)
+        elif name == "treesum":
+            g.treesum()
+        elif name == "naive":
+            g.naive_bottom_up()
+        elif name == "call":
+            g(())
+        elif name == "derivative":
+            g.derivative(sorted(g.V, key=repr)[0])
+        elif name == "materialize":
+            g.materialize(1)
+        elif name in ("cnf", "prefix_grammar", "rhs"):
+            getattr(g, name)
+        else:
+            getattr(g, name)()
     return g
 
 
@@ -119,7 +164,7 @@ def _parser(kind, g):
 
 
 def f_parse(a):
-    g = build(a["G"], a["sr"], a.get("names", "str"))
+    g = build(a["G"], a["sr"], a.get("names", "str"), a.get("pre"), a.get("late", 0))
     s = ustr(a["s"])
     k = a["parser"]
     if k == "direct":
@@ -137,7 +182,10 @@ def f_parse(a):
                 esched.reset("follow", follow=[(j, y) for j, y in a["follow"]])
             v = _parser(k, g)(s)
     else:
-        v = _parser(k, g)(s)
+        p = _parser(k, g)
+        for w in a.get("warm", ()):      # earlier queries on the same parser object
+            p(ustr(w))
+        v = p(s)
     return {"op": "parse", "sr": srmodel(a["sr"]), "G": a["G"], "s": a["s"], "res": enc_w(g.R, coerce(g.R, v))}
 
 
@@ -152,7 +200,7 @@ def coerce(R, v):
 
 
 def f_prefix(a):
-    g = build(a["G"], a["sr"], a.get("names", "str"))
+    g = build(a["G"], a["sr"], a.get("names", "str"), a.get("pre"), a.get("late", 0))
     s = ustr(a["s"])
     how = a["how"]
     if how == "prefix_weight":
@@ -182,7 +230,7 @@ def f_explen(a):
 
 
 def f_prefixgrammar(a):
-    g = build(a["G"], a["sr"], a.get("names", "str"))
+    g = build(a["G"], a["sr"], a.get("names", "str"), a.get("pre"), a.get("late", 0))
     before = cfg_digest(g)
     out, _ = cfg_proj(g.prefix_grammar)
     if cfg_digest(g) != before:
@@ -191,7 +239,7 @@ def f_prefixgrammar(a):
 
 
 def f_derivative(a):
-    g = build(a["G"], a["sr"], a.get("names", "str"))
+    g = build(a["G"], a["sr"], a.get("names", "str"), a.get("pre"), a.get("late", 0))
     pre = ustr(a["pre"])
     d = g
     for x in pre:
@@ -243,10 +291,10 @@ def f_transform(a):
 
 
 def f_treesum(a):
-    g = build(a["G"], a["sr"], a.get("names", "str"))
+    g = build(a["G"], a["sr"], a.get("names", "str"), a.get("pre"), a.get("late", 0))
     how = a["how"]
     if how == "agenda":
-        ch = g.agenda()
+        ch = g.agenda(**({"tol": a["tol"]} if "tol" in a else {}))
     elif how == "naive":
         ch = g.naive_bottom_up()
     else:
@@ -264,7 +312,7 @@ def f_treesum(a):
 
 
 def f_lang(a):
-    g = build(a["G"], a["sr"], a.get("names", "str"))
+    g = build(a["G"], a["sr"], a.get("names", "str"), a.get("pre"), a.get("late", 0))
     ch = g.materialize(a["L"])
     return {"op": "lang", "sr": srmodel(a["sr"]), "G": a["G"], "L": a["L"],
             "entries": [[seq(k), enc_w(g.R, coerce(g.R, v))] for k, v in ch.items() if v != g.R.zero]}
@@ -274,6 +322,8 @@ def f_mask(a):
     g = build(a["G"], a["sr"], a.get("names", "str"))
     lm = BoolCFGLM(g, alg=a["alg"])
     ctx = ustr(a["ctx"])
+    for w in a.get("warm", ()):          # earlier queries on the same LM object
+        lm.p_next(ustr(w))
     p = lm.p_next(ctx)
     for k, v in p.items():
         if v != 1:
@@ -283,14 +333,14 @@ def f_mask(a):
 
 
 def f_addeos(a):
-    g = build(a["G"], a["sr"], a.get("names", "str"))
+    g = build(a["G"], a["sr"], a.get("names", "str"), a.get("pre"), a.get("late", 0))
     out, _ = cfg_proj(add_EOS(g))
     return {"op": "addeos", "sr": srmodel(a["sr"]), "in": a["G"], "out": out, "sigma": a["G"]["V"],
             "eos": EOS_NAME, "L": a["L"]}
 
 
 def f_normalize(a):
-    g = build(a["G"], a["sr"], a.get("names", "str"))
+    g = build(a["G"], a["sr"], a.get("names", "str"), a.get("pre"), a.get("late", 0))
     out, _ = cfg_proj(locally_normalize(g))
     return {"op": "normalize", "sr": srmodel(a["sr"]), "in": a["G"], "out": out, "sigma": a["G"]["V"], "L": a["L"]}
 
